@@ -3,7 +3,7 @@
    definition the Redefine model and the correspondence check evaluate.
    They hold for every universe, every type and filter lists of any length
    and nesting depth.  Proof file: no definitions the model depends on. *)
-From ArgMapper Require Import Base Types.
+From ArgMapper Require Import Base Types Args Resolver.
 From Coq Require Import List Bool.
 Import ListNotations.
 
@@ -96,3 +96,16 @@ End FilterLaws.
 
 Print Assumptions flt_or_flatten.
 Print Assumptions flt_and_incl.
+
+(* Through Redefine: an output filter that permits nothing (FilterOr()) makes
+   Redefine of any function with at least one output fail with the
+   output-filter error -- for every universe, world, order tape, default and
+   option list, before any graph is built. *)
+Lemma redefine_or_nil_rejects u f d opts w t bo fld flds :
+  build_args [] opts = Some bo -> b_fout bo = Some (FltOr []) -> fn_out f = fld :: flds ->
+  exists r, redefine u f d opts w t = Ok (inr XFilterOut, r).
+Proof.
+  intros Hb Hf Ho. unfold redefine. rewrite Hb, Hf, Ho.
+  cbn [forallb flt_ok existsb negb andb]. eexists. reflexivity.
+Qed.
+Print Assumptions redefine_or_nil_rejects.
